@@ -226,6 +226,31 @@ def check_write(ctx: Ctx) -> None:
                    "decoding errors must fail the run before anything is written (errors= must be strict)", where(rf, c))
 
 
+def check_result_always_written(ctx: Ctx) -> None:
+    repo, prog = ctx.repo, ctx.prog
+    rf = repo.func("flowmark.reformat_api:reformat_file")
+    flow = prog.flow(rf)
+    # W8: once the text is formatted, every normal path to the end of reformat_file hands the result to a sink (the atomic
+    #     file write or stdout). A path that skips it ("unchanged, leave the file alone") makes the in-place entry point differ
+    #     from the others: read_text() has already translated CRLF, so "unchanged" is not "byte-identical".
+    rt_q = "flowmark.reformat_api:reformat_text"
+    fmt_nodes = [n for n, c in flow.all_calls() if call_name(prog, rf, c) == rt_q]
+    sinks = []
+    for n, c in flow.all_calls():
+        if isinstance(c.func, ast.Attribute) and c.func.attr in ("write_text", "write") and c.args:
+            if any(o == ("call", rt_q) for o in origins(prog, rf, c.args[0], n)):
+                sinks.append(n)
+    ctx.require("R-WRITE", "writes of the formatted result in reformat_file", len(sinks), 2)
+    for fn in fmt_nodes:
+        p = flow.cfg.path_avoiding(fn, flow.cfg.exit, set(sinks))
+        # exceptional edges do not count: an error before the write is W7's business
+        if p is not None and any(x.kind == "except" for x in p):
+            p = None
+        ctx.ob("R-WRITE-W8", f"{rf.qual} :: the formatted result is written on every normal path", p is None,
+               "after reformat_text every path to the end of the function must write the result (file or stdout); a path that returns "
+               "without writing leaves the destination as it was", where(rf, fn), [f"{x.lineno}: {x.text()}" for x in (p or [])])
+
+
 def _enclosing_with(node: ast.AST) -> ast.With | None:
     from ..loader import parent
 
@@ -432,7 +457,7 @@ def check_usage_errors(ctx: Ctx) -> None:
                             gs |= prog.slice(rfs, ex, bnode).params()
                     # the pre-check must lie on the way to the loop (it can reach the loop head's predecessors)
                     before_loop = r not in body and _precedes(flow, r, h)
-                    if before_loop and need <= gs:
+                    if before_loop and need <= gs and _covers_every_element(prog, rfs, flow, r, h):
                         covered = True
                 ctx.ob("R-USAGE", f"{rfs.qual} :: pre-check of `{norm(rn.ast)[:70]}`", covered,
                        f"the per-file callee raises this usage error (it depends on {sorted(need)}) inside the loop, after "
@@ -445,6 +470,32 @@ def check_usage_errors(ctx: Ctx) -> None:
                 p = p or flow.cfg.path_avoiding(m, r, set())
         ctx.ob("R-USAGE", f"{rfs.qual} :: {norm(r.ast)[:70]}", p is None,
                "a usage error must not be raised after a file has been processed", where(rfs, r))
+
+
+def _covers_every_element(prog, fi: FuncInfo, flow, raise_node: Node, head: Node) -> bool:
+    """The condition of the pre-check looks at *all* the elements the loop will visit: it uses the iterated sequence through a
+    membership test or any()/all() over it - not only through one fixed position (`files[0] == "-"` misses `a.md -`)."""
+    it = head.ast.iter if head.kind == "for" else None
+    if it is None:
+        return True
+    seq = {norm(x) for x in ast.walk(expand_expr(prog, fi, it, head)) if isinstance(x, ast.Name)} & set(fi.params)
+    if not seq:
+        return True
+    uses_seq = False
+    for bnode, _lab in flow.control_deps(raise_node):
+        for ex in flow.node_exprs(bnode):
+            e = expand_expr(prog, fi, ex, bnode)
+            names = {x.id for x in ast.walk(e) if isinstance(x, ast.Name)}
+            if not (names & seq):
+                continue
+            uses_seq = True
+            for x in ast.walk(e):
+                if isinstance(x, ast.Compare) and any(isinstance(op, (ast.In, ast.NotIn)) for op in x.ops) \
+                        and any(isinstance(c, ast.Name) and c.id in seq for c in x.comparators):
+                    return True
+                if isinstance(x, ast.comprehension) and any(isinstance(y, ast.Name) and y.id in seq for y in ast.walk(x.iter)):
+                    return True
+    return not uses_seq
 
 
 def _precedes(flow, a: Node, head: Node) -> bool:
